@@ -297,6 +297,9 @@ def boundary_font():
     adv = {n: (600 + (k % 7) * 100 if k < len(order) - 9 else 777, (k % 5) * 10 - 20) for k, n in enumerate(order)}
     fb.setupHorizontalMetrics(adv)
     fb.setupHorizontalHeader(ascent=1600, descent=-400)
+    # vertical metrics too: vhea.numberOfVMetrics is derived from vmtx at save time exactly as hhea's count is from hmtx
+    fb.setupVerticalMetrics({n: (1000 + (k % 3) * 100 if k < len(order) - 6 else 1234, (k % 4) * 7) for k, n in enumerate(order)})
+    fb.setupVerticalHeader(ascent=1024, descent=-1024)
     fb.setupNameTable({"familyName": "Boundary", "styleName": "Regular"})
     fb.setupOS2(); fb.setupPost(); fb.setupMaxp() if hasattr(fb, "setupMaxp") else None
     return fb.font
